@@ -35,7 +35,11 @@ func (t *Type) Decorate(content Message, d *Decoration) (msg Message) {
 		case "sender":
 			with[i] = t.SenderName
 		case "target":
-			with[i] = *t.TargetName
+			if t.TargetName != nil {
+				with[i] = *t.TargetName
+			} else {
+				with[i] = Text("") // the header carried no target (vanilla: an empty component)
+			}
 		case "content":
 			with[i] = content
 		default:
